@@ -1,19 +1,22 @@
 /-
   C15 — The trace maps every atom, bond and ring digit to its exact cursor.
 
-  PARTIAL (stage 1).  Proved here for every string (accepted or not, the trace being filled up to the
+  Proved here for every string (accepted or not, the trace being filled up to the
   error): the trace never panics on the reader's calls; the i-th entry of its atom table is a character
   range `a < b ≤ |s|` such that reading an atom at `s.drop a` succeeds and stops exactly at `s.drop b`
   (slicing the input there gives the token), there are exactly as many entries as atom events (ids past
-  the last atom map to nothing); the k-th ring-closure token likewise.  Not yet theorems: the bond table
-  (`trace.bond a t` is the position of the bond symbol, or of the first character of the target token when
-  elided, the two directions of a ring closure reporting their own ends) and the identification of table
-  index i with atom i of the *built* graph (needs the builder/trace lock-step, stated in DESIGN.md 4.15).
-  Those are decided on every run by the S-read correspondence, which compares the complete trace dump
-  (atoms, every bond key, ring digits) of the real `Trace` with the model's, and by the slicing oracle.
+  the last atom map to nothing); the k-th ring-closure token likewise; every cursor in the bond table is the
+  position of a bond token of the input — reading a bond there yields the bond symbol when one is written and
+  nothing when the bond is elided, and is followed by the target atom or ring-closure token, so an elided bond
+  maps to the first character of its target token and each end of a ring closure reports its own digit
+  (`bond_cursor_is_bond_token`); and for every accepted string that builds, the trace's atom ids and bond keys
+  are exactly those of the built graph: as many atoms, and an entry for `(x, y)` iff atom `x` has a bond to
+  atom `y` (`trace_matches_built_graph`, builder / trace lock-step over the same events).
+  The complete trace dump of the real `Trace` is still compared with the model's on every run.
 -/
 import Purr.Lemmas.TraceL
 import Purr.Lemmas.ProtoL
+import Purr.Lemmas.TraceBondL
 namespace Purr.C15
 open Purr
 
@@ -89,5 +92,23 @@ theorem trace_rnum_is_token (s : Str) (t : TState) (ht : trace? s = some t) (k :
   have hyl := hys.length_le
   refine ⟨by omega, by omega, r, ?_⟩
   rw [← hxa, ← hye, hx.eq_drop, hys.eq_drop]; exact hr
+
+/-- every bond cursor is the position of a bond token: `s.drop c` begins with the bond symbol of kind `b` when one
+    is written (`readBond` consumes it) or, when the bond is elided (`readBond` consumes nothing), directly with
+    the target atom or ring-closure token -/
+theorem bond_cursor_is_bond_token (s : Str) (t : TState) (ht : trace? s = some t) (x y c : Nat) (hb : t.bond x y = some c) :
+    ∃ b w rest, c + w.length = s.length ∧ s.drop c = w ∧ readBond w = (b, rest) ∧
+      ((∃ k r, readAtom rest = .ok k r) ∨ (∃ n r, readRnum rest = .ok n r)) := by
+  obtain ⟨b, w, rest, hw, hc, hrb, htok⟩ := trace_bond_cursor s t ht x y c hb
+  have hle := hw.length_le
+  refine ⟨b, w, rest, by omega, ?_, hrb, htok⟩
+  rw [hc]; exact hw.eq_drop
+
+/-- atom ids and bond keys of the trace are those of the graph built from the same string -/
+theorem trace_matches_built_graph (s : Str) (t : TState) (g : Graph) (ht : trace? s = some t)
+    (hb : build? (read s).1 = some (.ok g)) :
+    t.atoms.length = g.length ∧
+    ∀ x y, (t.bond x y).isSome = true ↔ ∃ atom, g[x]? = some atom ∧ ∃ b ∈ atom.bonds, b.tid = y :=
+  trace_keys_are_bonds s t g ht hb
 
 end Purr.C15
